@@ -129,6 +129,9 @@ func dayLeaf(c *Ctx, recv ssa.Value, env *dayEnv) leafX {
 					return env.lunarMD[0], true
 				case "Lunar.day":
 					return env.lunarMD[1], true
+				case "Lunar.dayGanIndex":
+					// the date's own plain day stem: the stem of day 0 moved on by the day number
+					return floorMod10(env.stem + env.now), true
 				}
 			}
 			if strings.HasPrefix(f, "Solar.") {
